@@ -646,7 +646,7 @@ def case_class(line):
     op = a[0]
     if op in ("counts", "allocs") and len(a) > 1:
         op, a = op + ":" + a[1], a[1:]
-    if op in TEXT_OPS or op.endswith("_text"):
+    if op in TEXT_OPS or (op.endswith("_text") and op != "infer_text"):
         return op + "(text x%d)" % (len(a) - 1)
     def c(x):
         if not x:
